@@ -65,6 +65,7 @@ type Gen struct {
 	Big     int // if > 0, one in Big bodies is padded to 64 KiB - 1 MiB
 	EmptyX  int // if > 0, one in EmptyX bodies handed to the body+xattr entry points is zero-length (but not nil)
 	Short   int // if > 0, one in Short JSON bodies is a very short document (SQLite takes some 8-byte texts for JSONB)
+	TrailWS int // if > 0, one in TrailWS JSON bodies ends in insignificant whitespace (what json.Encoder writes)
 	n       int
 }
 
@@ -83,7 +84,11 @@ func (g *Gen) jsonBody() []byte {
 	}
 	b := rng.Pick(g.R, jsonBodies)
 	// make the value unique so a read identifies the write it observed
-	return []byte(b[:len(b)-1] + `,"u":"` + g.uniq() + `"}`)
+	out := b[:len(b)-1] + `,"u":"` + g.uniq() + `"}`
+	if g.TrailWS > 0 && g.R.Chance(1, g.TrailWS) {
+		out += rng.Pick(g.R, []string{"\n", " ", "\r\n", "\t\n"})
+	}
+	return []byte(out)
 }
 
 // xBody is the body handed to WriteWithXattrs / WriteResurrectionWithXattrs / WriteUpdateWithXattrs.
